@@ -113,7 +113,7 @@ func cmdCheck(args []string) int {
 		return reportLoadFailure(*prop, *tier, seed, *verif, err, start)
 	}
 	loadS := time.Since(start).Seconds()
-	timeout := 20
+	timeout := 25
 	if *tier == "thorough" {
 		timeout = 120
 	}
@@ -296,7 +296,7 @@ func cmdCheck(args []string) int {
 		<-done
 	}
 	// second pass: an obligation that was not decided while competing with the others for
-	// the cores is tried again with few neighbours and three times the time; only what is
+	// the cores is tried again with few neighbours and four times the time; only what is
 	// still undecided then is reported (proof instability must not become an alarm)
 	var retry []*Obligation
 	for _, o := range todo {
@@ -325,7 +325,7 @@ func cmdCheck(args []string) int {
 				go func() {
 					defer wg.Done()
 					first := o.Output
-					solve(oblCtx[o], o, qdir, timeout*3, *tier == "thorough")
+					solve(oblCtx[o], o, qdir, timeout*4, *tier == "thorough")
 					if o.Status != "unsat" {
 						o.Output = first + "\nsecond pass: " + o.Output
 					} else {
